@@ -328,6 +328,21 @@ theorem others_observe_the_same (tbl : List IfaceRow) : ∀ (evs : List Ev) (b :
     congr 1
     exact others_observe_the_same tbl evs _ (good_step tbl h ev)
 
+/-- … and the two worlds end in the same state, up to who is a monitor -/
+def shadowFinal (tbl : List IfaceRow) : Bus → Bus → List Ev → Bus
+  | _, s, [] => s
+  | b, s, ev :: evs => shadowFinal tbl (step tbl b ev).bus (shade none (step tbl s (shadowEv b ev)).bus) evs
+
+theorem states_agree_up_to_shading (tbl : List IfaceRow) : ∀ (evs : List Ev) (b : Bus), Good b →
+    shadowFinal tbl b (shade none b) evs = shade none (run tbl b evs).1
+  | [], _, _ => rfl
+  | ev :: evs, b, h => by
+    have hs := step_ignores_monitors tbl b h ev
+    rw [(run_cons tbl b ev evs).2]
+    show shadowFinal tbl (step tbl b ev).bus (shade none (step tbl (shade none b) (shadowEv b ev)).bus) evs = _
+    rw [hs.2]
+    exact states_agree_up_to_shading tbl evs _ (good_step tbl h ev)
+
 theorem others_observe_the_same_from_start (tbl : List IfaceRow) (l : Limits) (p : Policy) (evs : List Ev) :
     (run tbl { limits := l, policy := p } evs).2 = shadowRun tbl { limits := l, policy := p } { limits := l, policy := p } evs :=
   others_observe_the_same tbl evs _ (good_init l p)
